@@ -181,6 +181,66 @@ if not m:
     die("jcparam.c: jpeg_quality_scaling clamp not found")
 consts["QUALITY_MIN"] = int(m.group(1)); consts["QUALITY_MAX"] = int(m.group(2))
 
+
+# ---------------------------------------------------------------- jcparam.c jpeg_simple_progression
+m = re.search(r"GLOBAL\(void\)\s*jpeg_simple_progression\(j_compress_ptr cinfo\)\s*\{(.*?)\n\}", jcp, re.S)
+if not m:
+    die("jcparam.c: jpeg_simple_progression not found")
+sp = m.group(1)
+m = re.search(r"if \(ncomps == (\d+) && cinfo->jpeg_color_space == JCS_YCbCr\) \{\s*nscans = (\d+);\s*\} else \{\s*"
+              r"if \(ncomps > MAX_COMPS_IN_SCAN\)\s*nscans = (\d+) \* ncomps;\s*else\s*nscans = (\d+) \+ (\d+) \* ncomps;\s*\}", sp)
+if not m:
+    die("jcparam.c: nscans computation of jpeg_simple_progression no longer has the modelled form")
+consts["SP_YCC_NCOMPS"], consts["SP_YCC_NSCANS"], consts["SP_BIG_MUL"], consts["SP_ADD"], consts["SP_MUL"] = [int(x) for x in m.groups()]
+# the workspace rule: (condition) { size update; allocation }.  Two shapes are understood:
+#   guard 1: the allocation is executed whenever the size is updated          (alloc entries = new size)
+#   guard 2: the allocation is executed only when script_space == NULL         (an existing workspace never grows)
+m = re.search(r"if \(cinfo->script_space == NULL \|\| cinfo->script_space_size < nscans\) \{(.*?)\n  \}\s*scanptr = cinfo->script_space;", sp, re.S)
+if not m:
+    die("jcparam.c: script workspace test of jpeg_simple_progression not found")
+ws = re.sub(r"\s+", " ", m.group(1)).strip()
+alloc = (r"cinfo->script_space = \(jpeg_scan_info \*\) \(\*cinfo->mem->alloc_small\) \(\(j_common_ptr\)cinfo, JPOOL_PERMANENT, "
+         r"cinfo->script_space_size \* sizeof\(jpeg_scan_info\)\);")
+m1 = re.fullmatch(r"cinfo->script_space_size = MAX\(nscans, (\d+)\); " + alloc, ws)
+m2 = re.fullmatch(r"cinfo->script_space_size = MAX\(cinfo->script_space_size, MAX\(nscans, (\d+)\)\); if \(cinfo->script_space == NULL\) " + alloc, ws)
+m3 = re.fullmatch(r"cinfo->script_space_size = MAX\(cinfo->script_space_size, MAX\(nscans, (\d+)\)\); " + alloc, ws)
+if m1:
+    consts["SP_SIZE_RULE"], consts["SP_ALLOC_GUARD"], consts["SP_MIN_SLOTS"] = 1, 1, int(m1.group(1))
+elif m2:
+    consts["SP_SIZE_RULE"], consts["SP_ALLOC_GUARD"], consts["SP_MIN_SLOTS"] = 2, 2, int(m2.group(1))
+elif m3:
+    consts["SP_SIZE_RULE"], consts["SP_ALLOC_GUARD"], consts["SP_MIN_SLOTS"] = 2, 1, int(m3.group(1))
+else:
+    die("jcparam.c: script workspace (re)allocation of jpeg_simple_progression has an unknown form: " + ws[:200])
+if not re.search(r"scanptr = cinfo->script_space;\s*cinfo->scan_info = scanptr;\s*cinfo->num_scans = nscans;", sp):
+    die("jcparam.c: jpeg_simple_progression no longer stores scan_info / num_scans as modelled")
+# the two scripts as data: (kind, a, b, c, d, e)  kind 0 fill_dc_scans(Ah, Al), 1 fill_a_scan(ci, Ss, Se, Ah, Al), 2 fill_scans(Ss, Se, Ah, Al)
+m = re.search(r"cinfo->num_scans = nscans;\s*if \(ncomps == \d+ && cinfo->jpeg_color_space == JCS_YCbCr\) \{(.*?)\} else \{(.*?)\}\s*$", sp, re.S)
+if not m:
+    die("jcparam.c: the two script bodies of jpeg_simple_progression not found")
+def script_calls(body, what):
+    out = []
+    for stmt in [x.strip() for x in body.split(";") if x.strip()]:
+        mm = re.fullmatch(r"scanptr = fill_dc_scans\(scanptr, ncomps, (\d+), (\d+)\)", stmt)
+        if mm:
+            out.append((0, int(mm.group(1)), int(mm.group(2)), 0, 0, 0)); continue
+        mm = re.fullmatch(r"scanptr = fill_a_scan\(scanptr, (\d+), (\d+), (\d+), (\d+), (\d+)\)", stmt)
+        if mm:
+            out.append((1,) + tuple(int(x) for x in mm.groups())); continue
+        mm = re.fullmatch(r"scanptr = fill_scans\(scanptr, ncomps, (\d+), (\d+), (\d+), (\d+)\)", stmt)
+        if mm:
+            out.append((2,) + tuple(int(x) for x in mm.groups()) + (0,)); continue
+        die("jcparam.c: unexpected statement in the %s script of jpeg_simple_progression: %r" % (what, stmt))
+    return out
+sp_ycc = script_calls(m.group(1), "YCbCr")
+sp_gen = script_calls(m.group(2), "all-purpose")
+for pat, what in [(r"if \(ncomps <= MAX_COMPS_IN_SCAN\) \{\s*scanptr->comps_in_scan = ncomps;\s*for \(ci = 0; ci < ncomps; ci\+\+\)\s*scanptr->component_index\[ci\] = ci;\s*"
+                   r"scanptr->Ss = scanptr->Se = 0;\s*scanptr->Ah = Ah;\s*scanptr->Al = Al;\s*scanptr\+\+;\s*\} else \{\s*scanptr = fill_scans\(scanptr, ncomps, 0, 0, Ah, Al\);", "fill_dc_scans"),
+                  (r"for \(ci = 0; ci < ncomps; ci\+\+\) \{\s*scanptr->comps_in_scan = 1;\s*scanptr->component_index\[0\] = ci;\s*scanptr->Ss = Ss;\s*scanptr->Se = Se;\s*"
+                   r"scanptr->Ah = Ah;\s*scanptr->Al = Al;\s*scanptr\+\+;\s*\}", "fill_scans")]:
+    if not re.search(pat, jcp):
+        die("jcparam.c: %s no longer has the modelled form" % what)
+
 # ---------------------------------------------------------------- jcdctmgr.c (F3 fix)
 jcd = strip_comments(rd("jcdctmgr.c"))
 m = re.search(r"#define CLAMP_DIVISOR\(d\)\s+\(\(d\) > (\d+) \? \(UINT16\)(\d+) : \(UINT16\)\(d\)\)", jcd)
@@ -297,11 +357,15 @@ for k in ["DCTSIZE", "DCTSIZE2", "MAX_COMPONENTS", "MAX_COMPS_IN_SCAN", "C_MAX_B
           "NUM_QUANT_TBLS", "NUM_HUFF_TBLS", "NUM_ARITH_TBLS", "JPEG_MAX_DIMENSION", "BUFSIZE", "BIT_BUF_SIZE", "BIT_BUF_SIZE_32",
           "MAX_COEF_BITS_ADD", "DC_EXTRA_BITS", "AHAL_PREC", "MAX_AH_AL_HI", "MAX_AH_AL_LO", "LOSSLESS_PREC_MIN", "LOSSLESS_PREC_MAX",
           "LOSSY_PREC_A", "LOSSY_PREC_B", "RESTART_MAX", "PSV_MIN", "PSV_MAX", "QUANT_MIN", "QUANT_MAX", "QUANT_BASELINE_MAX",
-          "QUALITY_MIN", "QUALITY_MAX", "DIVISOR_CLAMP", "DIVISOR_CLAMPED_EVERYWHERE", "ZERO_QUANT_REJECTED",
+          "QUALITY_MIN", "QUALITY_MAX", "SP_YCC_NCOMPS", "SP_YCC_NSCANS", "SP_BIG_MUL", "SP_ADD", "SP_MUL", "SP_SIZE_RULE",
+          "SP_ALLOC_GUARD", "SP_MIN_SLOTS", "DIVISOR_CLAMP", "DIVISOR_CLAMPED_EVERYWHERE", "ZERO_QUANT_REJECTED",
           "NCOMP_CHECK_IN_VALIDATE", "REVALIDATE_AFTER_LOSSLESS", "MISSING_CODE_CHECK", "MISSING_ZRL_EOB_CHECK", "SIMD_RANGE_PRECHECK", "RESTART_CLAMP_DIRECT", "TJ_NUMSAMP", "TJ_NUMCS"]:
     out.append("Definition g_%s : Z := %d." % (k, consts[k]))
 out.append("\n(* zigzag order of encode_one_block: position 0 and the 63 kloop() arguments *)")
 out.append("Definition g_kloop_order : list Z :=\n  [%s]." % "; ".join(map(str, zz)))
+out.append("\n(* jpeg_simple_progression: the two scripts as calls (kind, a, b, c, d, e): 0 fill_dc_scans(Ah, Al), 1 fill_a_scan(ci, Ss, Se, Ah, Al), 2 fill_scans(Ss, Se, Ah, Al) *)")
+for nm, l in (("g_sp_ycc", sp_ycc), ("g_sp_gen", sp_gen)):
+    out.append("Definition %s : list (Z * Z * Z * Z * Z * Z) :=\n  [%s]." % (nm, "; ".join("(%d, %d, %d, %d, %d, %d)" % t for t in l)))
 out.append("\n(* tj3Set: (param, kind, need, lo, hi)   kind 0 = SET_BOOL_PARAM, 1 = SET_PARAM(lo, hi) (hi <= 0: no upper bound),")
 out.append("   2 = always THROW (read-only);   need 0 = any instance, 1 = COMPRESS, 2 = DECOMPRESS *)")
 for name, v, kind, need, lo, hi in rows:
